@@ -61,7 +61,7 @@ Theorem C01_tmcg_open : forall (k w : nat) (km ky : nat -> Z) (nqr : nat -> Z ->
   (forall i z, J i z -> nqr i ((z * ky i) mod km i) = negb (nqr i z)) ->
   (0 < k)%nat ->
   forall T chain, 0 <= T < 2 ^ Z.of_nat w -> Forall (good_secret k w U) chain ->
-  type_of_card k w (self_bits nqr (mask_chain km ky (create_open_card ky T) chain)) = T.
+  type_of_card k w (self_bits nqr (mask_chain km ky (open_card_qr ky T) chain)) = T.
 Proof. exact tmcg_open_ok. Qed.
 Print Assumptions C01_tmcg_open.
 
